@@ -8,6 +8,7 @@ package main
 import (
 	"encoding/json"
 	"fmt"
+	"github.com/internetarchive/Zeno/internal/pkg/controler/pause"
 	"os"
 	"path/filepath"
 	"strconv"
@@ -34,10 +35,12 @@ type scen struct {
 	Workers int      `json:"workers"`
 	Assets  int      `json:"assets"`
 	P       int      `json:"p"`
+	// PauseResume: a controller (a watchdog, the operator) pauses the pipeline and resumes it, anywhere in the run
+	PauseResume bool `json:"pause_resume,omitempty"`
 }
 
 func (s *scen) name() string {
-	return fmt.Sprintf("%s w%d a%d", strings.Join(s.Seq, ","), s.Workers, s.Assets)
+	return fmt.Sprintf("%s w%d a%d", strings.Join(s.Seq, ","), s.Workers, s.Assets) + map[bool]string{true: " +pause-resume", false: ""}[s.PauseResume]
 }
 
 var bigBody = strings.Repeat("lorem ipsum dolor sit amet, consectetur adipiscing elit\n", 40000) // 2.2 MiB of text: spooled to a temp file
@@ -194,6 +197,13 @@ func scenario(s *scen) *vsched.Scenario {
 		w.WaitIdle()
 		idle = measure(vsched.Cur(), w)
 		idle.Threads-- // this thread itself
+		if s.PauseResume {
+			go func() { // controller: after the drain by default, every deviation moves it earlier
+				vsched.Point("h:pause requested", nil)
+				pause.Pause("verif")
+				pause.Resume()
+			}()
+		}
 		for i, k := range s.Seq {
 			if err := w.Insert(fmt.Sprintf("seed%d", i), seedOf(k, i)); err != nil {
 				panic(err)
@@ -303,9 +313,15 @@ func scenarios(tier string) []scen {
 	for _, k := range []string{"two", "discarded-gzip"} {
 		out = append(out, scen{Seq: []string{k}, Workers: 1, Assets: 2, P: 2})
 	}
+	// a pause / resume cycle placed anywhere in the run of one or two seeds (spooled bodies, a retried failure):
+	// what a worker holds when the pause reaches it must come out at the other end all the same
+	for _, seq := range [][]string{{"spooled"}, {"small", "spooled"}, {"retry-fail", "small"}} {
+		out = append(out, scen{Seq: seq, Workers: 1, Assets: 2, P: 2, PauseResume: true})
+	}
+	out = append(out, scen{Seq: []string{"spooled", "small"}, Workers: 2, Assets: 1, P: 1, PauseResume: true})
 	if tier == "thorough" {
 		for i := range out {
-			if len(out[i].Seq) <= 2 {
+			if len(out[i].Seq) <= 2 && !out[i].PauseResume {
 				out[i].P = 1
 			}
 		}
